@@ -16,7 +16,10 @@ cls_of = z3.Function("cls", MK, z3.IntSort())
 kids = z3.Function("kids", MK, z3.ArraySort(z3.IntSort(), MK))
 nkids = z3.Function("nkids", MK, z3.IntSort())
 eqm = z3.Function("eqm", MK, MK, z3.BoolSort())
-mname_is = z3.Function("name_is_ghost", MK, z3.BoolSort())     # for single markers: m.name == ghost variable
+name_of = z3.Function("name", MK, z3.StringSort())            # m.name of a single marker
+X = z3.String("x!ghost_variable")                              # the pointwise ghost variable name
+in_names = z3.Function("in_names", z3.StringSort(), z3.BoolSort())   # membership in the `marker_names` of an only() call
+inside = z3.Function("inside", MK, z3.BoolSort())              # every variable m mentions is in `marker_names`
 
 CLASSES = ["AnyMarker", "EmptyMarker", "MarkerExpression", "EqualityMarkerUnion", "InequalityMultiMarker", "MultiMarker", "MarkerUnion"]
 CID = {c: i for i, c in enumerate(CLASSES)}
@@ -115,7 +118,12 @@ class MarkerTheory:
             if c in ("MultiMarker", "MarkerUnion"):
                 i = z3.Int("i!ax")
                 ax.append(z3.ForAll([m], z3.Implies(cls_of(m) == CID[c], uses(m) == z3.Exists([i], z3.And(0 <= i, i < nkids(m), uses(z3.Select(kids(m), i)))))))
-        ax.append(z3.ForAll([m], z3.Implies(is_cls(m, *SINGLE), uses(m) == mname_is(m))))
+        ax.append(z3.ForAll([m], z3.Implies(is_cls(m, *SINGLE), z3.And(uses(m) == (name_of(m) == X), inside(m) == in_names(name_of(m))))))
+        ax.append(z3.ForAll([m], z3.Implies(is_cls(m, "AnyMarker", "EmptyMarker"), inside(m))))
+        i2 = z3.Int("j!ax")
+        ax.append(z3.ForAll([m], z3.Implies(is_cls(m, "MultiMarker", "MarkerUnion"),
+                                            inside(m) == z3.ForAll([i2], z3.Implies(z3.And(0 <= i2, i2 < nkids(m)), inside(z3.Select(kids(m), i2)))))))
+        ax.append(z3.ForAll([x, y], z3.Implies(eqm(x, y), inside(x) == inside(y))))
         self._axioms = ax
         return ax
 
@@ -150,8 +158,12 @@ class MarkerTheory:
         if attr == "name":
             if ex.branch(z3.Not(is_cls(t, *SINGLE))):
                 raise RaiseEx("AttributeError", "name")
-            return NameOf(t)
-        if attr in self.method_contracts:
+            return name_of(t)
+        if attr in ("exclude", "only", "without_extras") and ex.decide(is_cls(t, *SINGLE)) is True:
+            from ..values import BoundMethod
+            f, _ = self.index.find_method(self.index.cls("SingleMarker"), attr)
+            return BoundMethod(o, f)       # the real SingleMarker method (inlined, or its contract if the task says so)
+        if attr in self.method_contracts and self.method_contracts[attr] is not None:
             fn = self.method_contracts[attr]
             return _Method(lambda *a, **k: fn(ex, o, list(a)))
         raise OutsideSubset(f"attribute {attr} of an abstract marker")
